@@ -1,14 +1,81 @@
-"""C08 — decided by the bounded real-code run of bounded/printers_real.py (see DESIGN.md)."""
+"""C08 — the AUTO text reads back to the same tree and re-prints identically.
+
+Deductive part (PyVC, contracts/readers.py): printer and reader meet at the token-level specification toks(t) of the AUTO text.
+  printer   depccg/printer/auto.py::auto_of.rec        the text it returns, cut at its literal blanks, is toks(node) (recursive results stand for toks(child))
+  reader    depccg/tools/reader.py::_AutoLineReader.parse_leaf / parse_tree / next_node (inlined)
+            requires the pieces at the cursor to be toks(t); ensures a tree iso to t (shape, category text, head flags, POS, escaped word) and the cursor behind toks(t);
+            the recursive parses are replaced by that contract (structural induction)
+  lemmas    next-lemma (the real body of next() on characters: a blank-free piece followed by a blank is returned and skipped), ntoks-positive,
+            reprint (iso trees have the same pieces: printing the tree read back reproduces the line)
+The conll fragments clause and everything about concrete characters inside fields (escapes) is decided by the bounded run."""
 import time
+
+from vc.sorts import CheckerError, get_world
+from vc.pyvc import Interp
+from vc import engine
+from vc.engine import verify_contract
+from contracts import cat as catc, printers as pr, readers as rd
 from props import c12
+
 PROP = 'C08'
+
+
+def setup():
+    w = get_world()
+    catc.bind_world(w)
+    table, impls, virtuals = catc.cat_contracts()
+    I = Interp(w, table)
+    rd.install_reader_env(I)
+    cs = [rd.Denormalize(), rd.AutoRec(), rd.ReaderNext(), rd.ReaderCheck(), rd.ReaderPeek(), rd.ParseLeaf(), rd.ParseTree()]
+    for c in cs:
+        I.contracts[c.name] = c
+    return w, I, cs
+
+
+def run_job(kind, key):
+    w, I, cs = setup()
+    if kind == 'contract':
+        qual, case = key
+        c = [x for x in cs if x.qualname == qual][0]
+        recs, npaths = verify_contract(I, c, PROP, only_case=case)
+        for r in recs:
+            r['witness'] = dict(function=c.name)
+        return dict(job=key, records=recs, paths=npaths, lib=sorted(I.used_lib))
+    if kind == 'next-lemma':
+        c = rd.NextLemma()
+        recs, npaths = verify_contract(I, c, PROP)
+        for r in recs:
+            r['name'] = r['name'].replace('_AutoLineReader.next/', '_AutoLineReader.next[next-lemma]/')
+            r['witness'] = dict(function=c.name)
+        return dict(job=key, records=recs)
+    if kind == 'lemmas':
+        return dict(job=key, records=rd.reader_lemmas(I, PROP))
+    raise CheckerError(kind)
 
 
 def main(tier='quick', seed=0):
     t0 = time.time()
+    jobs = [('contract', ('auto_of.rec', None)), ('contract', ('_AutoLineReader.parse_leaf', None)), ('contract', ('_AutoLineReader.parse_tree', 'unary')),
+            ('contract', ('_AutoLineReader.parse_tree', 'binary')), ('next-lemma', 'next'), ('lemmas', 'pieces')]
+    results = engine.run_jobs('props.c08', jobs)
+    records, errors = [], []
+    for r in results:
+        records.extend(r.get('records', []))
+        if r.get('error'):
+            errors.append(f"{r['error']} (job {r['job']})")
+    pr.replay_views(records)
     assumptions = [
-        'bounded stand-in only: run-time contract decode(encode(t)) = view(t) with independent spec decoders, and the repository readers applied to files the encoders wrote, on enumerated derivations (never counted as proved)',
-        'lxml serialise/parse round trip preserves tags, attributes and order for XML-representable strings',
+        'deductive part: AUTO printer and reader against the token-level specification toks(t) over the tree view (Leaf | Un | Bin with opaque node tags; the view is checked against tree.py in C07); '
+        'recursive calls replaced by contracts (structural induction; the induction principle is the meta-rule)',
+        'ASSUMED abstraction of the reader cursor: next() / check() / peek() / line[index + k] act on blank-separated pieces (text of a piece = its characters; character k of the piece at the cursor, with an '
+        'obligation that the piece is that long); justified by next-lemma (proved on the real body of next() with z3 / cvc5 strings) for fields that are non-empty and blank-free - the precondition of C08 '
+        '(printable non-blank tokens); the last piece of a one-word line is not followed by a blank (its value is discarded by parse_leaf)',
+        'assumed contracts of callees: Category.parse(str(c)) returns a category with the text str(c) (C05); Tree.make_terminal / make_unary / make_binary build the view they are told to (view lemma of C07); '
+        'guess_combinator_by_triplet returns some rule record (C12); Token(**fields) holds its fields; denormalize is an opaque function of the word (the printed word field is denormalize(word), without backslash); '
+        'str.replace(a, b) leaves a string without a unchanged',
+        'the conll fragment clause, escapes inside fields and the file-level readers (read_auto: ID lines, category fixes) are decided by the BOUNDED stand-in (never counted as proved)',
     ]
-    extra = dict(functions_under_contract=[], explanation='no contract-level proof was built for this property; the deciding evidence is the bounded run on the real encoders and readers')
-    return c12.finish_with(PROP, tier, seed, t0, [], [], extra, assumptions, ['printers_real.py'], level='exploration')
+    extra = dict(functions_under_contract=['depccg/printer/auto.py::auto_of.rec', 'depccg/tools/reader.py::_AutoLineReader.parse_leaf', 'depccg/tools/reader.py::_AutoLineReader.parse_tree',
+                                           'depccg/tools/reader.py::_AutoLineReader.next_node (inlined)', 'depccg/tools/reader.py::_AutoLineReader.next (next-lemma, characters)'],
+                 bounded_functions=['depccg/printer/conll.py::conll_of (fragments)', 'depccg/tools/reader.py::read_auto', 'depccg/utils.py::denormalize'])
+    return c12.finish_with(PROP, tier, seed, t0, records, errors, extra, assumptions, ['printers_real.py'], level='exploration')
